@@ -34,7 +34,7 @@ CHECKS = {
          'trace validation (Push records carry the name); negative configs BugPrefixMatch / BugAnySet -> SwapOnlyReported; '
          'GenSpecF generates scenarios whose foreign events are tempting (name a node that is up, answers ROLE master and was '
          'never reported for the client\'s set); canonical scenario foreign-master-sets in the three modes.',
-    design_ref='DESIGN.md 4.5, 5 C23; proposed/design_sentinel.md',
+    design_ref='DESIGN.md 4.5, 5 C23; design/sentinel.md',
     note='Trusted: TLC; fakeredis as Redis/Sentinel double; placement of the add-only hooks (swap.begin before the stores, failure hooks '
          'after target.Close()). Verification is per address: the client (by design) re-dials an installed address without asking ROLE '
          'again, the specification says so. Bounded: 2 sentinels, 3 nodes, <= 4 environment steps per generated scenario; scenario '
